@@ -12,15 +12,13 @@ Definition src_request_core (cf : config) (buf : list N) (rq : request) (arr : l
   fin_req (ifun (g_request_core_body E (S (length buf)) cf buf)
                 (g_request_core_init (q_method rq) (q_path rq) (q_version rq) (q_hdrs rq) arr arr)
                 (cur_new buf)).
-(* the wrappers, as Api.v models them, over the translated core (their Rust text is pinned:
-   LibApi.wrappers_pinned) *)
+(* Request::parse_with_config as TRANSLATED (take self.headers, cast, call the core, restore unless Complete); the
+   remaining one-line delegations (parse, ParserConfig::parse_request, the *_with_uninit_headers pair, new) are
+   pinned by their token text: LibApi.wrappers_pinned *)
 Definition src_request_with_config (cf : config) (buf : list N) (rq : request) : rq_res :=
-  let headers := q_hdrs rq in
-  let rq0 := mkreq (q_method rq) (q_path rq) (q_version rq) [] in
-  match src_request_core cf buf rq0 headers with
-  | (Complete n, rq', arr') => (Complete n, rq', arr')
-  | (other, rq', arr') => (other, mkreq (q_method rq') (q_path rq') (q_version rq') arr', arr')
-  end.
+  fin_reqw (ifun (g_request_with_config_body E (S (length buf)) cf buf)
+                 (g_request_with_config_init (q_method rq) (q_path rq) (q_version rq) (q_hdrs rq) [] [])
+                 (cur_new buf)).
 Definition src_request_call (e : entry) (cf : config) (buf : list N) (arr : list slot) (rq : request) : rq_res :=
   match e with
   | EParse => src_request_with_config config_default buf rq
@@ -34,8 +32,8 @@ Lemma src_request_core_eq cf buf rq arr : src_request_core cf buf rq arr = reque
 Proof. apply tie_request_core. exact Efwd. Qed.
 Lemma src_request_call_eq e cf buf arr rq : src_request_call e cf buf arr rq = request_call E e cf buf arr rq.
 Proof.
-  destruct e; cbn [src_request_call request_call]; unfold src_request_with_config, request_with_config;
-    rewrite ?src_request_core_eq; reflexivity.
+  destruct e; cbn [src_request_call request_call]; unfold src_request_with_config;
+    rewrite ?src_request_core_eq, ?(tie_request_with_config E Efwd); reflexivity.
 Qed.
 End Src.
 
